@@ -552,7 +552,316 @@ async def leaving_a_context_with_an_explicit_parent():
     return out == want, f"{out}"
 
 
-SCENARIOS = {f.__name__: f for f in (optional_injection_is_the_optional_lookup, lookup_paths_agree_inside_a_component,
+def _leaves(e):
+    if isinstance(e, BaseExceptionGroup):
+        return [y for x in e.exceptions for y in _leaves(x)]
+    return [e]
+
+
+async def waiting_component_gets_the_async_factorys_product():
+    """C04 (and C06): a component waits for a resource; a sibling then provides it through an ASYNCHRONOUS factory:
+    the asynchronous lookup the waiter makes after being woken generates the resource (once) in the surrounding
+    context and the waiter gets it"""
+    from asphalt.core import Component, add_resource_factory, get_resource, start_component
+    calls, got = [], {}
+
+    class Waiter(Component):
+        async def start(self):
+            got["v"] = await get_resource(A)
+
+    class Provider(Component):
+        async def start(self):
+            await anyio.sleep(0.02)
+
+            async def make() -> A:
+                calls.append(1)
+                await anyio.sleep(0)
+                return A("made")
+            add_resource_factory(make)
+
+    class Root(Component):
+        def __init__(self):
+            self.add_component("w", Waiter)
+            self.add_component("p", Provider)
+    async with Context() as ctx:
+        try:
+            await start_component(Root, {}, timeout=3)
+        except BaseException as e:  # noqa
+            return False, f"startup failed: {type(e).__name__}: {[repr(x)[:80] for x in _leaves(e)]} cause {e.__cause__!r}"
+        again = await ctx.get_resource(A)
+    ok = isinstance(got.get("v"), A) and got["v"].tag == "made" and len(calls) == 1 and again is got["v"]
+    return ok, f"waiter got {getattr(got.get('v'), 'tag', None)}, factory called {len(calls)} time(s), cached: {again is got.get('v')}"
+
+
+async def factory_error_fails_the_component():
+    """C07: a component whose get_resource() hits a factory that raises (here a KeyError, a LookupError like
+    ResourceNotFound but not it) FAILS: ComponentStartError for that component, phase `starting`, with the
+    KeyError as cause -- it does not start to wait for a publication"""
+    from asphalt.core import Component, ComponentStartError, add_resource_factory, get_resource, start_component
+
+    class Needs(Component):
+        async def start(self):
+            await get_resource(A)
+
+    class Root(Component):
+        def __init__(self):
+            self.add_component("needs", Needs)
+
+        async def prepare(self):
+            def broken() -> A:
+                raise KeyError("missing setting")
+            add_resource_factory(broken)
+    out = None
+    async with Context():
+        try:
+            with anyio.fail_after(5):
+                await start_component(Root, {}, timeout=1)
+            out = "returned"
+        except ComponentStartError as e:
+            out = ("ComponentStartError", e.phase, e.path, type(e.__cause__).__name__)
+        except BaseException as e:  # noqa
+            out = (type(e).__name__,)
+    return out == ("ComponentStartError", "starting", "needs", "KeyError"), f"{out}"
+
+
+async def timeout_is_a_timeouterror_wherever_the_component_hangs():
+    """C07: when the startup times out start_component raises TimeoutError -- also when the component that hangs
+    is waiting in an awaitable that is not a native coroutine (anext() of an async generator, aclose())"""
+    from asphalt.core import Component, start_component
+    out = []
+    for how in ("anext", "sleep"):
+        async def agen():
+            await anyio.sleep(30)
+            yield 1
+
+        class Hangs(Component):
+            async def start(self):
+                if how == "anext":
+                    await anext(agen(), None)
+                else:
+                    await anyio.sleep(30)
+        async with Context():
+            try:
+                with anyio.fail_after(5):
+                    await start_component(Hangs, {}, timeout=0.2)
+                out.append((how, "returned"))
+            except TimeoutError:
+                out.append((how, "TimeoutError"))
+            except BaseException as e:  # noqa
+                out.append((how, type(e).__name__ + ": " + str(e)[:80]))
+    return all(o[1] == "TimeoutError" for o in out), f"{out}"
+
+
+async def unaccepted_task_exception_and_the_blocks_own_both_come_out():
+    """C09: an Exception escaping a task (no handler) propagates out of the owning root context -- also when the
+    root's block itself ends with an exception at the same time: neither is lost"""
+    class BlockErr(Exception):
+        pass
+
+    class TaskErr(Exception):
+        pass
+    out = []
+    for with_handler in (False, True):
+        try:
+            async with Context() as ctx:
+                tf = await ctx.start_background_task_factory(exception_handler=(lambda e: False) if with_handler else None)
+
+                async def failing():
+                    await anyio.sleep(0.02)
+                    raise TaskErr("task")
+                tf.start_task_soon(failing)
+                try:
+                    await anyio.sleep(1)
+                finally:
+                    pass
+                raise BlockErr("block")     # not reached: the crash cancels the block first
+        except BaseException as e:  # noqa
+            out.append(sorted(type(x).__name__ for x in _leaves(e)))
+        try:
+            async with Context() as ctx:
+                tf = await ctx.start_background_task_factory(exception_handler=(lambda e: False) if with_handler else None)
+                gate = anyio.Event()
+
+                async def failing_later():
+                    await gate.wait()
+                    raise TaskErr("task")
+                tf.start_task_soon(failing_later)
+                ctx.add_teardown_callback(gate.set)       # the task fails while the root is being torn down
+                raise BlockErr("block")
+        except BaseException as e:  # noqa
+            out.append(sorted(type(x).__name__ for x in _leaves(e)))
+    ok = all("TaskErr" in o for o in out) and all("BlockErr" in o for o in out[1::2])
+    return ok, f"{out}"
+
+
+async def one_stream_over_equal_owners():
+    """C10: one stream over the signals of two owners that compare equal (but are different objects) is
+    subscribed to both: an event dispatched on either arrives, stamped with its own source"""
+    from dataclasses import dataclass
+    from asphalt.core import Event, Signal, stream_events
+
+    @dataclass(frozen=True)
+    class Owner:
+        n: int
+        sig = Signal(Event)
+    a, b = Owner(1), Owner(1)
+    got = []
+    async with stream_events([a.sig, b.sig]) as st:
+        a.sig.dispatch(Event())
+        b.sig.dispatch(Event())
+        with anyio.move_on_after(0.5):
+            async for ev in st:
+                got.append("a" if ev.source is a else "b" if ev.source is b else "?")
+                if len(got) == 2:
+                    break
+    return got == ["a", "b"], f"received from {got}"
+
+
+async def class_change_keeps_the_channel_and_class_level_use_is_refused():
+    """C11: the bound signal belongs to the INSTANCE and the attribute: it stays the same when the instance's class
+    is switched to a sibling class inheriting the same Signal; and a signal used through the class is refused by
+    the module-level stream_events / wait_event too"""
+    from asphalt.core import Event, Signal, UnboundSignal, stream_events, wait_event
+
+    class Base:
+        sig = Signal(Event)
+
+    class Idle(Base):
+        pass
+
+    class Busy(Base):
+        pass
+    o = Idle()
+    before = o.sig
+    got = []
+    async with before.stream_events() as st:
+        o.__class__ = Busy
+        after = o.sig
+        o.sig.dispatch(Event())
+        with anyio.move_on_after(0.5):
+            async for ev in st:
+                got.append(ev)
+                break
+    refused = []
+    for name, use in (("stream", lambda: stream_events([Base.sig])), ("wait", lambda: wait_event([Base.sig])),
+                      ("mixed", lambda: stream_events([o.sig, Idle.sig]))):
+        try:
+            with anyio.fail_after(1):
+                x = use()
+                if hasattr(x, "__aenter__"):
+                    async with x:
+                        pass
+                else:
+                    await x
+            refused.append((name, "accepted"))
+        except UnboundSignal:
+            refused.append((name, "UnboundSignal"))
+        except BaseException as e:  # noqa
+            refused.append((name, type(e).__name__))
+    ok = after is before and len(got) == 1 and all(r[1] == "UnboundSignal" for r in refused)
+    return ok, f"same channel after the class change: {after is before}, delivered: {len(got)}, class-level use: {refused}"
+
+
+async def wrapper_kind_decides_the_lookup():
+    """C19: what decides between get_resource_nowait and `await get_resource` is the kind of the DECORATED callable
+    itself: an `async def` that wraps (functools.wraps) a plain function awaits get_resource, a plain function that
+    wraps an `async def` uses get_resource_nowait"""
+    import functools
+    from asphalt.core import AsyncResourceError, get_resource, get_resource_nowait
+
+    def plain(*, dep: A = resource()):
+        return dep
+
+    async def coro(*, dep: A = resource()):
+        return dep
+
+    @functools.wraps(plain)
+    async def async_over_plain(*args, **kwargs):
+        return plain(*args, **kwargs)
+
+    @functools.wraps(coro)
+    def plain_over_async(*args, **kwargs):
+        return coro(*args, **kwargs)
+    f1, f2 = inject(async_over_plain), inject(plain_over_async)
+    out = []
+    async with Context() as ctx:
+        async def make() -> A:
+            return A("async-made")
+        ctx.add_resource_factory(make)
+        # the plain function first: like get_resource_nowait it must refuse the asynchronous factory
+        try:
+            r = f2()
+            out.append(("plain", "returned", hasattr(r, "__await__")))
+            if hasattr(r, "__await__"):
+                await r
+        except AsyncResourceError:
+            out.append(("plain", "AsyncResourceError"))
+        try:
+            get_resource_nowait(A)
+            out.append(("explicit-nowait", "returned"))
+        except AsyncResourceError:
+            out.append(("explicit-nowait", "AsyncResourceError"))
+        try:
+            r = await f1()
+            out.append(("async", getattr(r, "tag", r)))
+        except AsyncResourceError:
+            out.append(("async", "AsyncResourceError"))
+        out.append(("explicit-async", (await get_resource(A)).tag))
+    ok = out == [("plain", "AsyncResourceError"), ("explicit-nowait", "AsyncResourceError"), ("async", "async-made"),
+                 ("explicit-async", "async-made")]
+    return ok, f"{out}"
+
+
+async def injected_call_in_a_closed_context_is_the_explicit_call():
+    """C19: every call looks the resources up in the context that is current AT THAT CALL: a second call made by a
+    task whose current context has meanwhile been closed fails like the explicit lookup does (RuntimeError) before
+    the body runs -- it does not run with what an earlier call was given"""
+    from asphalt.core import get_resource_nowait
+    ran = []
+
+    @inject
+    def f(*, dep: A = resource()):
+        ran.append(dep.tag)
+        return dep.tag
+
+    @inject
+    async def g(*, dep: A = resource()):
+        ran.append(dep.tag)
+        return dep.tag
+    out = []
+    proceed, finished = anyio.Event(), anyio.Event()
+
+    async def worker():
+        # inherits the request context as its current context and outlives it
+        out.append(("first", f(), await g()))
+        await proceed.wait()
+        for name, call in (("explicit", lambda: get_resource_nowait(A)), ("sync", f), ("async", g)):
+            n = len(ran)
+            try:
+                r = call()
+                if hasattr(r, "__await__"):
+                    r = await r
+                out.append((name, "returned", len(ran) > n))
+            except RuntimeError:
+                out.append((name, "RuntimeError", len(ran) > n))
+        finished.set()
+    async with Context():
+        async with anyio.create_task_group() as tg:
+            async with Context() as request:
+                request.add_resource(A("req"))
+                tg.start_soon(worker)
+                await anyio.sleep(0.02)
+            proceed.set()
+            await finished.wait()
+    ok = out[0] == ("first", "req", "req") and all(o[1] == "RuntimeError" and o[2] is False for o in out[1:]) and len(out) == 4
+    return ok, f"{out}"
+
+
+SCENARIOS = {f.__name__: f for f in (optional_injection_is_the_optional_lookup, waiting_component_gets_the_async_factorys_product,
+                                     factory_error_fails_the_component, timeout_is_a_timeouterror_wherever_the_component_hangs,
+                                     unaccepted_task_exception_and_the_blocks_own_both_come_out, one_stream_over_equal_owners,
+                                     class_change_keeps_the_channel_and_class_level_use_is_refused, wrapper_kind_decides_the_lookup,
+                                     injected_call_in_a_closed_context_is_the_explicit_call, lookup_paths_agree_inside_a_component,
                                      leaving_a_context_with_an_explicit_parent, leaked_child_survives_gc, closed_after_teardown_raised_baseexception,
                                      owner_left_by_baseexception_waits_for_tasks,
                                      handler_sees_the_escaping_exception_once, failed_subscription_leaves_nothing,
